@@ -14,54 +14,39 @@ theorem vcF_toNat (n : UInt64) (h : 0 < n.toNat) : (vcF n).toNat = (n.toNat - 1)
   · rfl
   · rw [UInt64.le_iff_toNat_le]; simp; omega
 
-theorem vcQ_unfold (n : UInt64) :
-    vcQ n = if (n * 2) % 3 > 0 then (n * 2) / 3 + 1 else (n * 2) / 3 := by
-  simp only [vcQ, Id.run, pure, decide_eq_true_eq]
-
-/-- Unfolded value of the code's `q` as long as `2 * n` does not wrap. -/
-theorem vcQ_toNat (n : UInt64) (h : n.toNat < 2 ^ 63) : (vcQ n).toNat = (2 * n.toNat + 2) / 3 := by
-  have hd : (n * 2).toNat = 2 * n.toNat := by
-    rw [UInt64.toNat_mul]; simp; omega
-  have hm : ((n * 2) % 3).toNat = (2 * n.toNat) % 3 := by rw [UInt64.toNat_mod, hd]; rfl
-  have hq : ((n * 2) / 3).toNat = (2 * n.toNat) / 3 := by rw [UInt64.toNat_div, hd]; rfl
-  rw [vcQ_unfold]
-  by_cases hr : (n * 2) % 3 > 0
-  · have hr' : 0 < ((n * 2) % 3).toNat := by
-      have := UInt64.lt_iff_toNat_lt.mp hr
-      simpa using this
-    rw [if_pos hr, UInt64.toNat_add]
-    rw [hm] at hr'
-    have h1 : (1 : UInt64).toNat = 1 := rfl
-    rw [h1, hq]
-    have hlt : 2 * n.toNat / 3 + 1 < 2 ^ 64 := by omega
-    rw [Nat.mod_eq_of_lt hlt]
+/-- Unfolded value of the code's `q` (`N - N/3`, which is `ceil(2N/3)` and cannot wrap). -/
+theorem vcQ_toNat (n : UInt64) : (vcQ n).toNat = (2 * n.toNat + 2) / 3 := by
+  have hn := n.toNat_lt
+  simp only [vcQ, Id.run, pure]
+  rw [UInt64.toNat_sub_of_le]
+  · rw [UInt64.toNat_div]
+    have h3 : (3 : UInt64).toNat = 3 := rfl
+    rw [h3]
     omega
-  · have hr' : ((n * 2) % 3).toNat = 0 := by
-      have : ¬ (0 < ((n * 2) % 3).toNat) := fun h => hr (UInt64.lt_iff_toNat_lt.mpr (by simpa using h))
-      omega
-    rw [if_neg hr, hq]
-    rw [hm] at hr'
+  · rw [UInt64.le_iff_toNat_le, UInt64.toNat_div]
+    have h3 : (3 : UInt64).toNat = 3 := rfl
+    rw [h3]
     omega
 
 /-- Quorum intersection on the code's own thresholds: for every total voting power `N > 0`
-(below the `uint` wrap-around of `2 * N`), two quorums overlap in more than `f` power, a quorum
+(the whole `uint64` range: since the repair 487454a `q` is computed as `N - N/3` and cannot wrap),
+two quorums overlap in more than `f` power, a quorum
 never exceeds the total, and `f` is strictly less than a third. -/
-theorem quorum_intersection_generated (n : UInt64) (h0 : 0 < n.toNat) (h : n.toNat < 2 ^ 63) :
+theorem quorum_intersection_generated (n : UInt64) (h0 : 0 < n.toNat) :
     n.toNat + (vcF n).toNat < 2 * (vcQ n).toNat ∧ (vcQ n).toNat ≤ n.toNat ∧ 3 * (vcF n).toNat < n.toNat := by
-  rw [vcF_toNat n h0, vcQ_toNat n h]
+  rw [vcF_toNat n h0, vcQ_toNat n]
   omega
 
 /-- `f + 1` voting power always contains a correct validator's power and a quorum leaves room
 for it: `f < q`. -/
-theorem f_lt_q_generated (n : UInt64) (h0 : 0 < n.toNat) (h : n.toNat < 2 ^ 63) :
+theorem f_lt_q_generated (n : UInt64) (h0 : 0 < n.toNat) :
     (vcF n).toNat < (vcQ n).toNat := by
-  rw [vcF_toNat n h0, vcQ_toNat n h]
+  rw [vcF_toNat n h0, vcQ_toNat n]
   omega
 
-/-- Beyond 2^63 the product `2 * N` wraps and the code's quorum is NOT a two-thirds quorum
-(witness: N = 2^63 gives q = 0). Total voting power is a `uint`; realistic validator sets are far
-below this bound, which is why the theorems above carry the hypothesis explicitly. -/
-theorem quorum_wraps_at_2_63 : (vcQ (UInt64.ofNat (2 ^ 63))).toNat = 0 := by decide
+/-- The boundary that used to fail: at N = 2^63 the former `2 * N` wrapped to 0 and `q` was 0
+(known finding of C12, repaired by 487454a); the regenerated `q` is a genuine two-thirds quorum. -/
+theorem quorum_at_2_63 : (vcQ (UInt64.ofNat (2 ^ 63))).toNat = 6148914691236517206 := by decide
 
 -- non-vacuity of the hypotheses: n = 4 (four equal validators) gives f = 1, q = 3
 example : (vcF 4).toNat = 1 ∧ (vcQ 4).toNat = 3 := by decide
